@@ -21,6 +21,8 @@ Decided structurally (writer is the oracle for the reader and vice versa; nothin
   C10.nested    nesting protocol of RAW text, per (parent, component) reader pair: the nested reader hands back on an option it does not
                 know, the parent re-reads that line, the introducing line carries the key the reader extracts, and the introducing
                 option is not a prefix of a nested option
+  C10.ssorder   the position of an end-member in cxxSS::ss_comps is its identity in the binary non-ideal model: read_raw only appends or
+                replaces in place (never rebuilds the vector)
   C10.nan       members the engine sets to NAN and dump_raw writes unconditionally are read back NaN-tolerantly
 Not decided: (e) textual fixed point of dump -> read -> dump (number formatting), (f) equality of follow-up results
 (derived quantities recomputed on read); phreeqc2cxxStorageBin / InternalCopy bulk copies are checked in the thorough tier
@@ -192,6 +194,46 @@ def nested_rule(P, R):
         R.anchor_missing(RULE, "only %d parent / component pairs found" % npairs)
 
 
+def ssorder_rule(P, R):
+    """In the binary non-ideal solid-solution model the POSITION of an end-member in cxxSS::ss_comps is its identity (component 1 /
+    component 2: a0, a1, ag0, ag1, xb1, xb2 are applied by index in tidy and in the model).  A restored state must therefore list
+    the end-members in the dumped order: cxxSS::read_raw may only append a new component or replace one in place; rebuilding the vector
+    (clear / erase / insert / assignment, e.g. from a name-sorted map) silently swaps the end-members."""
+    RULE = "C10.ssorder"
+    R.rule(RULE, "cxxSS::read_raw keeps the dumped order of the end-members: ss_comps is only appended to or replaced in place", minimum=2)
+    fs = [g for g in P.fns_named("cxxSS::read_raw") if g.get("body")]
+    if not fs:
+        R.anchor_missing(RULE, "cxxSS::read_raw not found")
+        return
+    f = fs[0]
+    ops = []
+    for c in T.calls(f["body"]):
+        obj = c[3] if T.is_node(c[3]) else (c[4][0] if c[2].get("k") == "op" and c[4] else None)
+        if obj is None:
+            continue
+        o = T.strip_casts(obj)
+        if o[0] == "Member" and o[2] == "cxxSS::ss_comps":
+            ops.append((T.callee_name(c), c[1]))
+    allowed = {"push_back", "operator[]", "size", "empty", "back", "front", "at"}
+    bad = [(n_, l) for n_, l in ops if n_ not in allowed]
+    if not ops or not any(n_ == "push_back" for n_, l in ops):
+        R.anchor_missing(RULE, "cxxSS::read_raw no longer appends to ss_comps")
+        return
+    if bad:
+        R.violation(RULE, "ss_comps", "cxxSS::read_raw applies `%s` to ss_comps (line %d): the vector is rebuilt instead of appended to / replaced in place, so the end-members of a restored "
+                    "binary non-ideal solid solution can come back in another order and the Guggenheim parameters are applied to the wrong end-member" % bad[0],
+                    file=f["file"], line=bad[0][1], function=f["q"])
+    else:
+        R.ok(RULE, "ss_comps", "operations on ss_comps: %s" % ", ".join(sorted(set(n_ for n_, l in ops))))
+    # the consumer: tidy / model address the end-members by position
+    users = [g["q"] for g in P.functions.values() if g.get("body") and g["q"].startswith("Phreeqc::") and
+             any(x[0] == "Call" and T.callee_name(x) == "operator[]" and x[4] and any(T.callee_name(cc) == "Get_ss_comps" for cc in T.calls(x[4][0])) and T.lit_value(x[4][1]) in (0, 1) for x in T.walk(g["body"]))]
+    if users:
+        R.ok(RULE, "positional-users", "%d engine functions address Get_ss_comps()[0] / [1]" % len(users))
+    else:
+        R.anchor_missing(RULE, "no engine function addresses Get_ss_comps()[0] / [1] any more (the order may have stopped mattering)")
+
+
 def nan_rule(P, R):
     """A member that the engine deliberately sets to NAN (`Set_x(NAN)`: "not given") and that dump_raw writes is written as `nan`.
     Stream extraction of a double (`iss >> x`) rejects that text, so the entity's own dump raises an error when it is read back.  The
@@ -256,6 +298,7 @@ def run(P, R, tier):
     crossreset_rule(P, R)
     nested_rule(P, R)
     nan_rule(P, R)
+    ssorder_rule(P, R)
     onceflag_rule(P, R)
     # ------------------------------------------------------------------ C10.findopt
     R.rule("C10.findopt", "CParser::find_option: lower-cased token, exact match first, then first entry that begins with it", minimum=1)
